@@ -460,6 +460,8 @@ func corr(e *env, seed uint64, n int) {
 	// --- E / M: senc, saiz, saio byte for byte; malformed senc boxes
 	e.sencCases(r, n/4, next)
 	sencMalformed(r, n, next)
+	// --- T: sample sizes from trun / tfhd / trex (and with a nil trex)
+	e.trexCases(r, n/8, next)
 	thirdPartyStruct(e, next)
 	out.Flush()
 }
